@@ -85,6 +85,7 @@ fn hostile_scripts(rng: &mut Rng, nh: usize) -> Vec<Script> {
                 tolerant: rng.chance(1, 4),
                 fail_before_pulls: rng.bool(),
                 meta_hint: rng.usize(4) as u8,
+                finish_each: rng.chance(1, 5),
             }
         })
         .collect()
@@ -255,6 +256,26 @@ pub fn run(cfg: &Cfg, rep: &mut Report) {
                 dev.clear();
                 let r = run_cap(cap, built.root(), input, &mut dev, &mut c0).unwrap().result;
                 check_result(ctx, "boundary", input, &r, "boundary list, fixed capacity");
+            }
+        }
+        // degenerate "trees" the type allows: a leaf (plain or default) used as the root, a branch without children,
+        // a default branch as root, run on an inner node
+        {
+            use scpi::tree::Node;
+            let h = Script { id: 0, omnivore: true, emit: vec![Val::U8(1)], ..Default::default() };
+            let leaf: Node<Dev> = Node::Leaf { name: b"A", default: false, handler: &h };
+            let dleaf: Node<Dev> = Node::Leaf { name: b"", default: true, handler: &h };
+            let empty: Node<Dev> = Node::Branch { name: b"", default: false, sub: &[] };
+            let inner = [Node::Leaf { name: b"E", default: true, handler: &h }, Node::Branch { name: b"A", default: true, sub: &[] }];
+            let dbranch: Node<Dev> = Node::Branch { name: b"A", default: true, sub: &inner };
+            for (nm, n) in [("leaf-as-root", &leaf), ("default-leaf-as-root", &dleaf), ("branch-without-children", &empty), ("default-branch-as-root", &dbranch), ("inner-leaf", &inner[0])] {
+                bump(ctx, 1);
+                let mut dev = Dev::new();
+                let mut c0 = Context::default();
+                let mut out: Vec<u8> = Vec::new();
+                let r = n.run(input, &mut dev, &mut c0, &mut out);
+                ctx.count("boundary.degenerate-root.runs");
+                check_result(ctx, "boundary", input, &r, nm);
             }
         }
         ctx.sample(|| jobj(&[("boundary_input", jbytes(input))]));
